@@ -9,6 +9,8 @@ RULE = ("sodium_pad: every len 0..300 x blocksize 0..130 + {256,512,1024,4096,65
         "before a PROT_NONE page with the marker at every position. thorough: len 0..700, block sizes 0..260. Loop tuples are "
         "generated once each (distinct); non-trivial = compared with the byte-array model.")
 
+RULE = RULE + ' Claimed capacities far above the padded length (2^31, 2^32, 2^32+1, 2^63, SIZE_MAX/2, SIZE_MAX-4096, SIZE_MAX-address, SIZE_MAX-address+1, SIZE_MAX-1, SIZE_MAX) for every length and block size: must succeed exactly as with capacity == padded length.'
+
 META = {
     "engine": "E-shape", "level": "exploration",
     "technique": "exhaustive bounded enumeration of (length, block size, capacity) and of final-block contents on the real code vs byte-array model",
